@@ -80,13 +80,13 @@ func WriteGood(tables []Table) []byte {
 		binary.BigEndian.PutUint32(s[4:], cs)
 		binary.BigEndian.PutUint32(s[8:], off)
 		binary.BigEndian.PutUint32(s[12:], l)
-		off += l
+		off = (off + l + 3) &^ 3
 	}
 	buf = append(buf, make([]byte, off-intro)...)
 	off = intro
 	for _, t := range tables {
 		copy(buf[off:], t.Content)
-		off += uint32(len(t.Content))
+		off = (off + uint32(len(t.Content)) + 3) &^ 3
 	}
 	return buf
 }
